@@ -896,6 +896,10 @@ def leak_shapes():
     A(P("msg-received", [spawn(2), L("recv", "ch"), join(2)], [L("send", "ch", v=1)]))
     A(P("msg-left-if-late", [spawn(2), L("tryrecv", "ch"), join(2)], [L("send", "ch", v=1)]))
     A(P("F11-send-after-droprx", [L("droprx", "ch"), L("send", "ch", v=1)]))
+    # leaks that depend on a uniqueness check racing with the drop of the other handle
+    A(P("leak-if-unwrap-wins", [L("tnew", "k"), spawn(2), L("aunwrap", "a1"), br(1, 0, 2), L("tdrop", "k"), D("a1"), join(2)], [D("a2")], arcs=a2))
+    A(P("leak-if-getmut-wins", [L("tnew", "k"), spawn(2), L("agetmut", "a1"), br(1, 0, 1), L("tdrop", "k"), D("a1"), join(2)], [D("a2")], arcs=a2))
+    A(P("leak-if-count-is-1", [L("tnew", "k"), spawn(2), L("acount", "a1"), br(1, 2, 1), L("tdrop", "k"), D("a1"), join(2)], [D("a2")], arcs=a2))
     return out
 
 
